@@ -1042,6 +1042,9 @@ Definition dec_expr (x : sx) : option expr :=
   | Lx (Ax "tup" :: l) => option_map ETup (map_opt dec_atom l)
   | Lx (Ax "rec" :: l) => option_map ERec (map_opt dec_fld l)
   | Lx [Ax "var"; n] => option_map EVar (sx_str n)
+  (* an expression whose evaluation fails without naming a variable of the session (a call of a user-defined function
+     whose body raises an error or panics): modelled as a reference to the name "", which no statement can define *)
+  | Lx [Ax "fails"] => Some (EVar "")
   | _ => None
   end.
 
